@@ -32,6 +32,7 @@ CONSTANTS N,            \* rows of the reference table (15000 in the format; 3 h
           HdrSet,       \* header data sets (bbox, filets) it may insert
           RefPolicy,    \* "any": inline or any matching row; "first": always the newest matching row; "inline": never a reference
           BulkN,        \* size of the generated data set "bulk" (more distinct strings than the real table has rows)
+          FillOnly,     \* TRUE: the first BulkN objects of "bulk" are only taken by FillerRun (one action for all of them)
           ExportHist
 VARIABLES ds, variant, pc, i, slot, fresh, nextra,
           mru, ereg,                 \* encoder
@@ -87,8 +88,8 @@ FinalMems(ms, k, reg) == IF k > Len(ms) THEN reg ELSE FinalMems(ms, k + 1, [reg 
 MReg(reg) == [n |-> reg.n, w |-> reg.w, r |-> reg.r]
 
 Init == /\ ds \in DSNames /\ variant \in {"o5m", "o5c"}
-        /\ (\E k \in 1..Len(D) : ~D[k].vis) => variant = "o5c"
-        /\ \A k \in 1..Len(D) : O5mCarries(D[k])
+        /\ LET dd == D IN /\ (\E k \in 1..Len(dd) : ~dd[k].vis) => variant = "o5c"
+                          /\ \A k \in 1..Len(dd) : O5mCarries(dd[k])
         /\ pc = "obj" /\ i = 1 /\ slot = 0 /\ fresh = TRUE /\ nextra = 0
         /\ mru = <<>> /\ ereg = ZeroReg
         /\ ring = [x \in 0..N - 1 |-> NoStr] /\ cur = 0 /\ dreg = ZeroReg
@@ -128,6 +129,7 @@ HeaderDs(kind) == /\ pc = "obj" /\ i = 1 /\ nextra < MaxExtra /\ (kind = "bbox" 
 (* the numeric part of a data set: id, version, timestamp, changeset, lon/lat or reference section *)
 ObjStart ==
     /\ pc = "obj" /\ i <= Len(D)
+    /\ ~(FillOnly /\ ds = "bulk" /\ i <= BulkN)
     /\ IF i = 1 \/ fresh THEN TRUE ELSE D[i - 1].t = D[i].t
     /\ LET o == D[i]
            \* ---- encoder: deltas against its registers
@@ -176,6 +178,10 @@ ObjStart ==
     /\ Rec([a |-> "obj", i |-> i - 1, strs |-> <<>>])
     /\ UNCHANGED <<ds, variant, i, nextra, mru, ring, cur, decoded, box>>
 
+\* a string (pair) written inline enters the table: A = list with the newest first, I = ReferenceTable::add
+AIns(m, b) == IF FormatStores(b) THEN SubSeq(<<b>> \o m, 1, Min(N, Len(m) + 1)) ELSE m
+IIns(r, c, b) == IF CodeStores(b) THEN [ring |-> [r EXCEPT ![c] = b], cur |-> (c + 1) % N] ELSE [ring |-> r, cur |-> c]
+
 Hows(b) == LET m == {idx \in 1..Len(mru) : mru[idx] = b} IN
            CASE RefPolicy = "inline" -> {0}
              [] RefPolicy = "first"  -> IF m = {} THEN {0} ELSE {CHOOSE x \in m : \A y \in m : x <= y}
@@ -186,10 +192,9 @@ Str == /\ pc = "strs" /\ slot <= Len(Slots(D[i]))
           \E how \in Hows(b) :
              /\ LET got == IF how = 0 THEN b ELSE ring[(cur + N - how) % N]        \* ReferenceTable::get
                 IN dobj' = [dobj EXCEPT !.strs = Append(@, got)]
-             /\ mru' = IF how = 0 /\ FormatStores(b) THEN SubSeq(<<b>> \o mru, 1, Min(N, Len(mru) + 1)) ELSE mru
-             /\ IF how = 0 /\ CodeStores(b)                                         \* ReferenceTable::add
-                  THEN ring' = [ring EXCEPT ![cur] = b] /\ cur' = (cur + 1) % N
-                  ELSE UNCHANGED <<ring, cur>>
+             /\ mru' = IF how = 0 THEN AIns(mru, b) ELSE mru
+             /\ LET rc == IF how = 0 THEN IIns(ring, cur, b) ELSE [ring |-> ring, cur |-> cur]
+                IN ring' = rc.ring /\ cur' = rc.cur
              /\ hist' = IF ExportHist THEN [hist EXCEPT ![Len(hist)].strs = Append(@, how)] ELSE hist
        /\ slot' = slot + 1
        /\ UNCHANGED <<ds, variant, pc, i, fresh, nextra, ereg, dreg, decoded, box>>
@@ -215,12 +220,36 @@ ObjEnd == /\ pc = "strs" /\ slot > Len(Slots(D[i]))
           /\ i' = i + 1 /\ pc' = "obj" /\ slot' = 0
           /\ UNCHANGED <<ds, variant, fresh, nextra, mru, ereg, ring, cur, dreg, dobj, box, hist>>
 
+(* The first BulkN objects of the data set "bulk" (node j at 0/0 with the single new tag j=v, all strings inline) in ONE
+   action: the BulkN-fold composition of ObjStart ; Str(inline) ; ObjEnd, written with the same AIns / IIns.  It exists so
+   that a table of the real size (N = 15000) can be filled without 45000 states of 15000 rows each; MCO5mFill.cfg (FillOnly
+   = FALSE, small N) contains both ways and checks that they meet in the same state (FillAgree). *)
+FillBody(j) == [k |-> "t", a |-> ToString(j), b |-> "v"]
+RECURSIVE FillA(_, _)
+FillA(m, j) == IF j > BulkN THEN m ELSE FillA(AIns(m, FillBody(j)), j + 1)
+RECURSIVE FillI(_, _)
+FillI(rc, j) == IF j > BulkN THEN rc ELSE FillI(IIns(rc.ring, rc.cur, FillBody(j)), j + 1)
+FillReg == [ZeroReg EXCEPT !.id = BulkN]
+FillerRun == /\ ds = "bulk" /\ pc = "obj" /\ i = 1 /\ nextra = 0
+             /\ mru' = FillA(mru, 1)
+             /\ LET rc == FillI([ring |-> ring, cur |-> cur], 1) IN ring' = rc.ring /\ cur' = rc.cur
+             /\ ereg' = FillReg /\ dreg' = FillReg
+             /\ decoded' = [j \in 1..BulkN |-> NodeB(j, 0, 0, <<<<ToString(j), "v">>>>)]
+             /\ i' = BulkN + 1 /\ fresh' = FALSE
+             /\ Rec([a |-> "fill", n |-> BulkN])
+             /\ UNCHANGED <<ds, variant, pc, slot, nextra, dobj, box>>
+FillAgree == (ds = "bulk" /\ pc = "obj" /\ i = BulkN + 1 /\ nextra = 0) =>
+                LET rc == FillI([ring |-> [x \in 0..N - 1 |-> NoStr], cur |-> 0], 1) IN
+                /\ mru = FillA(<<>>, 1) /\ ring = rc.ring /\ cur = rc.cur
+                /\ ereg = FillReg /\ dreg = FillReg
+                /\ decoded = [j \in 1..BulkN |-> NodeB(j, 0, 0, <<<<ToString(j), "v">>>>)]
+
 Finish == /\ pc = "obj" /\ i > Len(D)
           /\ pc' = "done"
           /\ UNCHANGED <<ds, variant, i, slot, fresh, nextra, mru, ereg, ring, cur, dreg, dobj, decoded, box, hist>>
 
 Next == Reset \/ TypeReset \/ (\E k \in SkipKinds : Skip(k)) \/ (\E k \in {"bbox", "filets"} \cap HdrSet : HeaderDs(k))
-        \/ ObjStart \/ Str \/ ObjEnd \/ Finish
+        \/ ObjStart \/ Str \/ ObjEnd \/ FillerRun \/ Finish
 Spec == Init /\ [][Next]_vars
 
 (* ---------------------------------------------------------------- properties *)
